@@ -8,7 +8,7 @@
 
    Two things are oracles (arguments of the model): [dec], the key decoder decodeKey of
    key.go (property C09), and [b64], encoding/base64.StdEncoding.DecodeString. *)
-From Vx Require Import base.Prelude model.Parser model.Mouse.
+From Vx Require Import base.Prelude model.Parser model.Mouse gen.GenInput.
 
 (* ---------- Go strings as code-point lists ---------- *)
 Definition rune_ok (r : Z) : bool :=
@@ -118,6 +118,11 @@ Definition emit_eqb (a b : emit) : bool :=
 Definition events_of (es : list emit) : list event :=
   flat_map (fun e => match e with Ev x => [x] | _ => [] end) es.
 Definition user_events (es : list emit) : list event := filter is_user (events_of es).
+(* what the waiting callers received *)
+Definition cursors_of (es : list emit) : list (Z * Z) :=
+  flat_map (fun e => match e with ToCursor r c => [(r, c)] | _ => [] end) es.
+Definition clips_of (es : list emit) : list (list Z) :=
+  flat_map (fun e => match e with ToClip s => [s] | _ => [] end) es.
 
 (* ---------- state ---------- *)
 Record caps := mkCaps {
@@ -428,14 +433,21 @@ Section Handle.
 
   (* ---------- the application side: callers that wait for replies ---------- *)
   Inductive appact :=
-    | ACursorQuery        (* CursorPosition: reqCursorPos = true, query written, select entered *)
+    | ACursorQuery        (* CursorPosition: reqCursorPos = true, query written, select entered
+                             (the whole prologue at once: nothing was scheduled in between) *)
     | ACursorTimerFires   (* its 50 ms timer wins the select: nobody receives any more ... *)
     | ACursorGiveUp       (* ... and then reqCursorPos = false *)
     | AClipWait           (* ClipboardPop enters its select *)
     | AClipLeave          (* its context is done *)
     | ATakeSize           (* reportWinsize receives from chSizeDone *)
     | ATakeColor | ATakeFg | ATakeBg   (* Query* receive their reply *)
-    | AQueue (q : option Z).           (* the application stops / resumes reading Events() *)
+    | AQueue (q : option Z)            (* the application stops / resumes reading Events() *)
+    (* the prologue of CursorPosition statement by statement, so that the input goroutine can be
+       scheduled between its statements (the order in the source is [cursor_prog] below) *)
+    | ACursorArm          (* atomicStore(&vx.reqCursorPos, true) *)
+    | ACursorWrite.       (* io.WriteString(vx.console, dsrcpr): from here on the terminal has the
+                             query and may answer; the caller reaches its select within the 50 ms
+                             the reply hand-off waits for a receiver (time is abstracted) *)
 
   Definition app_step (s : vxstate) (a : appact) : vxstate :=
     match a with
@@ -449,6 +461,8 @@ Section Handle.
     | ATakeFg => set_ch_fg s None
     | ATakeBg => set_ch_bg s None
     | AQueue q => set_q s q
+    | ACursorArm => set_req s true
+    | ACursorWrite => set_w_cursor s true
     end.
 
   Inductive step := SItem (it : item) | SApp (a : appact).
@@ -626,6 +640,7 @@ Section Spec.
   Definition spec_app (req : bool) (a : appact) : bool :=
     match a with
     | ACursorQuery => true
+    | ACursorArm => true
     | ACursorGiveUp => false
     | _ => req
     end.
@@ -639,3 +654,117 @@ Section Spec.
     | SApp a :: t => spec_user p (spec_app req a) t
     end.
 End Spec.
+
+(* ====================================================================================
+   The request side of the cursor-position hand-off, and the specification seen from the
+   TERMINAL.
+
+   [spec_user] above follows the request flag (reqCursorPos): it says what handleSequence must
+   do given the flag.  The property speaks about the wire: a report CSI r ; c R is the reply
+   to Vaxis's own query from the moment the query bytes have been written, and must then be
+   consumed and handed to the caller whatever the flag happens to be at that moment.  The two
+   views coincide only if CursorPosition arms the flag BEFORE the query reaches the terminal;
+   that is an obligation on the order of its statements, stated here over the translated body
+   (gen/GenInput.v, /verif/gen/input.go) and proved in proofs/InputProofs.v. *)
+
+(* the statements of the translated prologue that matter for the hand-off *)
+Definition prologue_act (st : pstmt) : list appact :=
+  match st with
+  | PStore f b => if f =? 0 then (if b then [ACursorArm] else [ACursorGiveUp]) else []
+  | PWrite q => if zlist_eqb q [27; 91; 54; 110] then [ACursorWrite] else []
+  | _ => []
+  end.
+(* CursorPosition's prologue in source order *)
+Definition cursor_prog : list appact := flat_map prologue_act cursor_position_prologue.
+
+(* is a cursor-position query outstanding on the wire?  (written; neither answered nor
+   abandoned by the caller) *)
+Definition wire_app (wire : bool) (a : appact) : bool :=
+  match a with
+  | ACursorQuery | ACursorWrite => true
+  | ACursorGiveUp => false
+  | _ => wire
+  end.
+(* is the caller still going to receive the answer? *)
+Definition wait_app (waiting : bool) (a : appact) : bool :=
+  match a with
+  | ACursorQuery | ACursorWrite => true
+  | ACursorTimerFires | ACursorGiveUp => false
+  | _ => waiting
+  end.
+
+Definition is_cpr (it : item) : bool := match it with ICsi _ _ fin => fin =? 82 | _ => false end.
+(* the position a report carries: exactly two parameters, the first value of each *)
+Definition cpr_answer (it : item) : option (Z * Z) :=
+  match it with ICsi _ [r :: _; c :: _] _ => Some (r, c) | _ => None end.
+
+Section WireSpec.
+  Variable dec : item -> ikey.
+
+  (* the user events an interleaving must deliver, in order: as [spec_user], but a report
+     CSI .. R counts as the reply exactly while a query is outstanding on the wire *)
+  Fixpoint spec_wire (p wire : bool) (l : list step) : list event :=
+    match l with
+    | [] => []
+    | SItem IEof :: _ => []
+    | SItem it :: t => let '(es, p', wire') := spec_item dec p wire it in es ++ spec_wire p' wire' t
+    | SApp a :: t => spec_wire p (wire_app wire a) t
+    end.
+End WireSpec.
+
+(* what the callers of CursorPosition must receive, in order: the position of every report that
+   answers an outstanding query while its caller is still there (a report with another number
+   of parameters uses the request up without an answer) *)
+Fixpoint spec_answers (wire waiting : bool) (l : list step) : list (Z * Z) :=
+  match l with
+  | [] => []
+  | SItem IEof :: _ => []
+  | SItem it :: t =>
+      if is_cpr it && wire then
+        match cpr_answer it with
+        | Some rc => if waiting then rc :: spec_answers false false t else spec_answers false false t
+        | None => spec_answers false waiting t
+        end
+      else spec_answers wire waiting t
+  | SApp a :: t => spec_answers (wire_app wire a) (wait_app waiting a) t
+  end.
+
+Definition is_nil {A} (l : list A) : bool := match l with [] => true | _ => false end.
+Definition same_prologue_act (a b : appact) : bool :=
+  match a, b with
+  | ACursorArm, ACursorArm | ACursorWrite, ACursorWrite => true
+  | _, _ => false
+  end.
+
+(* the schedules that can happen: any interleaving of delivered sequences with the statements
+   of the application's calls, where
+   - the statements of a call to CursorPosition run in the order [prog] ([todo]: what is left of
+     the prologue of the call in progress), a call starts only after the previous one has
+     returned, and its time-out can fire only after the prologue;
+   - a report CSI .. R arrives only as the reply to a query that has been written, or while no
+     call is in progress (then it is the F3 key or an unsolicited report: a key for both
+     views).  Excluded: a key CSI .. R typed inside the few instructions between the first
+     statement of CursorPosition and its write (the same bytes as a reply, see [stream_ok]);
+   - the application keeps reading Events(). *)
+Fixpoint sched_ok (prog : list appact) (wire : bool) (todo : list appact) (l : list step) : bool :=
+  match l with
+  | [] => true
+  | SItem IEof :: _ => true
+  | SItem it :: t =>
+      wf_item it && (negb (is_cpr it) || wire || is_nil todo) &&
+      sched_ok prog (wire && negb (is_cpr it)) todo t
+  | SApp a :: t =>
+      match a with
+      | ACursorArm | ACursorWrite =>
+          match (match todo with [] => prog | _ => todo end) with
+          | a' :: rest =>
+              same_prologue_act a a' && (negb (is_nil todo) || negb wire) &&
+              sched_ok prog (wire_app wire a) rest t
+          | [] => false
+          end
+      | ACursorQuery => is_nil todo && negb wire && sched_ok prog true [] t
+      | ACursorTimerFires | ACursorGiveUp => is_nil todo && sched_ok prog (wire_app wire a) [] t
+      | AQueue (Some _) => false
+      | _ => sched_ok prog wire todo t
+      end
+  end.
